@@ -652,4 +652,96 @@ theorem rH_bound {rnd : Rat → Rat} {r : Rat} (hr : Round6 rnd) (hr0 : r ≠ 0)
   conv_rhs => rw [e2]
   exact scaled_bound hr _ _
 
+/-! ### what is read back is consistent when the rounding is monotone -/
+
+/-- `'%g'` is monotone: a larger number is not written as a smaller one -/
+def Mono (rnd : Rat → Rat) : Prop := ∀ x y, x ≤ y → rnd x ≤ rnd y
+
+theorem rT_mono {rnd : Rat → Rat} (hm : Mono rnd) {f : Rat} (hf : 0 < f) {x y : Rat} (h : x ≤ y) :
+    rT rnd f x ≤ rT rnd f y := by
+  unfold rT
+  exact mul_le_mul_of_nonneg_right (hm _ _ (div_le_div_of_nonneg_right h (le_of_lt hf))) (le_of_lt hf)
+
+theorem mem_keys_foldl_dinsert {V : Type} (T : Rat) :
+    ∀ (l acc : List (Rat × V)),
+      T ∈ keys (l.foldl (fun d kv => dinsert kv.1 kv.2 d) acc) ↔ T ∈ keys acc ∨ T ∈ keys l := by
+  intro l
+  induction l with
+  | nil => intro acc; simp [keys]
+  | cons kv rest ih =>
+    intro acc
+    simp only [List.foldl_cons]
+    rw [ih, mem_keys_dinsert]
+    simp only [keys, List.map_cons, List.mem_cons]
+    constructor
+    · rintro ((h | h) | h)
+      · exact Or.inr (Or.inl h)
+      · exact Or.inl h
+      · exact Or.inr (Or.inr h)
+    · rintro (h | h | h)
+      · exact Or.inl (Or.inr h)
+      · exact Or.inl (Or.inl h)
+      · exact Or.inr h
+
+theorem mem_keys_dictOfList {V : Type} (T : Rat) (l : List (Rat × V)) : T ∈ keys (dictOfList l) ↔ T ∈ keys l := by
+  unfold dictOfList
+  rw [mem_keys_foldl_dinsert]
+  simp [keys]
+
+theorem keys_readBackPts (rnd : Rat → Rat) (r : Rat) (ru : RUnits) (cp : List (Rat × Rat)) (ks : List Rat) :
+    keys (readBackPts rnd r ru cp ks) = ks.map (rT rnd ru.T.2) := by
+  induction ks with
+  | nil => rfl
+  | cons T rest ih =>
+    simp only [readBackPts, keys, List.map_cons] at ih ⊢
+    rw [ih]
+
+theorem mem_keys_readBack (rnd : Rat → Rat) (r : Rat) (ru : RUnits) (c : Corr) (T' : Rat) :
+    T' ∈ keys (readBack rnd r ru c).cp ↔ ∃ T ∈ keys c.cp, T' = rT rnd ru.T.2 T := by
+  show T' ∈ keys (dictOfList (readBackPts rnd r ru c.cp (sortedKeys c.cp))) ↔ _
+  rw [mem_keys_dictOfList, keys_readBackPts, List.mem_map]
+  constructor
+  · rintro ⟨T, hT, rfl⟩; exact ⟨T, (mem_sortedKeys c.cp T).mp hT, rfl⟩
+  · rintro ⟨T, hT, rfl⟩; exact ⟨T, (mem_sortedKeys c.cp T).mpr hT, rfl⟩
+
+/-- with a monotone rounding and a positive temperature unit, what is read back from a consistent correlation is
+consistent -/
+theorem readBack_valid {rnd : Rat → Rat} (hm : Mono rnd) {r : Rat} {ru : RUnits} (hf : 0 < ru.T.2) {c : Corr} (v : Valid c) :
+    checkValid (readBack rnd r ru c).cp (readBack rnd r ru c).Tref (readBack rnd r ru c).range = .ok () := by
+  rw [checkValid_iff]
+  have hk := mem_keys_readBack rnd r ru c
+  have hne : keys (readBack rnd r ru c).cp ≠ [] → keys c.cp ≠ [] := by
+    intro h
+    obtain ⟨T', hT'⟩ := List.exists_mem_of_ne_nil _ h
+    obtain ⟨T, hT, _⟩ := (hk T').mp hT'
+    exact List.ne_nil_of_mem hT
+  have vo := v.ok
+  show ValidP _ (rT rnd ru.T.2 c.Tref) (c.range.map fun lh => (rT rnd ru.T.2 lh.1, rT rnd ru.T.2 lh.2))
+  cases hr : c.range with
+  | none =>
+    rw [hr] at vo
+    simp only [ValidP, Option.map_none] at vo ⊢
+    intro h
+    obtain ⟨⟨k1, m1, l1⟩, ⟨k2, m2, l2⟩⟩ := vo (hne h)
+    exact ⟨⟨_, (hk _).mpr ⟨k1, m1, rfl⟩, rT_mono hm hf l1⟩, ⟨_, (hk _).mpr ⟨k2, m2, rfl⟩, rT_mono hm hf l2⟩⟩
+  | some lh =>
+    obtain ⟨lo, hi⟩ := lh
+    rw [hr] at vo
+    simp only [ValidP, Option.map_some] at vo ⊢
+    refine ⟨rT_mono hm hf vo.1, ?_⟩
+    intro h
+    obtain ⟨hall, h1, h2⟩ := vo.2 (hne h)
+    refine ⟨?_, rT_mono hm hf h1, rT_mono hm hf h2⟩
+    intro k' hk'
+    obtain ⟨T, hT, rfl⟩ := (hk k').mp hk'
+    exact ⟨rT_mono hm hf (hall T hT).1, rT_mono hm hf (hall T hT).2⟩
+
+theorem rT_ne_zero {rnd : Rat → Rat} (hr : Round6 rnd) {f : Rat} (hf : f ≠ 0) {T : Rat} (hT : T ≠ 0) : rT rnd f T ≠ 0 := by
+  intro h
+  have hb := rT_bound hr f hf T
+  rw [h, absR_eq_abs, absR_eq_abs] at hb
+  simp only [zero_sub, abs_neg] at hb
+  have hpos : 0 < |T| := abs_pos.mpr hT
+  nlinarith
+
 end PGA.YamlFormat
